@@ -201,14 +201,38 @@ K("O09.2", ["C09"], "lib", "c09_eval_order", functions=["eval"],
   desc="eval enters the machine only after parse and compile succeeded (stages replaced by recorders): a compile-time reference error precedes any output")
 
 # ---------------------------------------------------------------------------------------------
+# C07 one tree per text
+# ---------------------------------------------------------------------------------------------
+K("O07.1", ["C07"], "parser", "c07_precedence_table", functions=["Token::precedence"], desc="precedence of every one of the 40 token kinds equals the documented table")
+K("O07.1b", ["C07"], "parser", "c07_precedence_order", functions=["Precedence (derived PartialOrd)"], desc="derived ordering of Precedence == declared order, all 10x10 pairs")
+K("O07.1c", ["C07", "C06"], "parser", "c07_operator_of_token", functions=["Operator::from(Token)"], desc="every operator token denotes the documented operator")
+K("O07.2a", ["C07"], "parser", "c07_parse_infix", needs_fmt_stub=True, functions=["Parser::parse_infix_expr"],
+  desc="modular (advance / parse_expr replaced by recorders): Infix{left, op(token), right}; right parsed at exactly the operator's own precedence; one token consumed")
+K("O07.2b", ["C07"], "parser", "c07_pratt_loop", needs_fmt_stub=True, functions=["Parser::parse_expr"],
+  desc="modular: for every following token and every binding power the Pratt loop continues iff token != ; and its precedence is STRICTLY higher (left associativity of equal levels)")
+K("O07.3", ["C07"], "parser", "c07_op_assign", needs_fmt_stub=True, functions=["Parser::parse_infix_expr", "Parser::parse_op_assign_expression"],
+  desc="a op= e is Assign{a, Infix{a, op, e}} with e parsed at the lowest precedence")
+K("O07.4", ["C07"], "parser", "c07_skip_optional", functions=["Parser::skip_optional"], desc="skip_optional consumes exactly the requested token, at most once")
+K("O07.4w", ["C07", "C08"], "lexer", "c07_is_whitespace", functions=["is_whitespace"], desc="is_whitespace is exactly the documented set, for every char")
+
+# ---------------------------------------------------------------------------------------------
 # per-property information for the evidence files
 # ---------------------------------------------------------------------------------------------
 NOT_APPLICABLE = {
     "C01": "relational claim over all programs (bytecode run == definitional evaluation of the tree): needs a verified semantics of VM::run as a whole and an inductive proof through compile_expression; neither function is within reach of Verus or Kani here (DESIGN.md s.1, s.5); its per-function ingredients are decided under C06/C10/C12/C13/C14/C15",
+    "C08": "tokenisation and literal decoding live in Tokenizer::next / skip_while / read_str and parse_string_expression (Chars iterators, str slicing, String::push/replace): no Verus model exists for them and CBMC does not finish Tokenizer::next even on 2 symbolic ASCII bytes with the Unicode predicates stubbed (> 300 s, measured) nor str::chars().count() on concrete 2-character texts; the only decidable fragment (is_whitespace for every char) is reported under C07 (O07.4w). Two genuine escape-decoding defects found by reading were repaired (known-findings.txt)",
     "C16": "quantifies over thread schedules, process histories and build profiles: Kani has no thread support, Verus would need the code rewritten onto its permission types, neither observes two build profiles (DESIGN.md s.5)",
 }
 
 PROPERTIES = {
+    "C07": {
+        "level": "proof",
+        "claim": "PARTIAL. Proved on the real parser functions for ALL tokens and binding powers (Kani, loop-free, callees replaced by recorders = modular): the precedence table and its ordering, the token->operator table, that an infix node's right operand is parsed at exactly the operator's own precedence while the Pratt loop continues only on STRICTLY higher precedence (so equal levels associate left), the op-assign desugaring, skip_optional, and the whitespace set. NOT decided: that parse(print(tree)) == tree for all trees, comments / layout in the tokenizer, `anders als` nesting, call/index argument loops.",
+        "note": "Trusted: Kani/CBMC. The tokenizer (Tokenizer::next) is out of reach of both back ends (> 300 s on 2 symbolic bytes; no Verus model of Chars / str slicing), so nothing about whole token streams or printed trees is decided.",
+        "design_ref": "DESIGN.md 3.11",
+        "undecided": ["round trip parse(print(t)) == t", "tokenizer (comments, whitespace skipping, separators)", "parse_if_expr / parse_call_expr / parse_array_expr / parse_block_statement loops"],
+        "assumptions": ["recorders stand for advance / parse_expr / parse_*_expr (their own contracts are the other C07 obligations or undecided)"],
+    },
     "C09": {
         "level": "proof",
         "claim": "PARTIAL. Proved (Verus, verbatim): the symbol table's context discipline - a function body sees its own context and the global one, never an enclosing function's; declarations go to the innermost context - and the compiler arms that turn a resolved name into a load/store of exactly its slot in its scope's opcode family, with an unresolved name rejected before anything is emitted; proved (Kani): eval never enters the machine when compilation failed. NOT decided: the per-context scope stack itself (Context::define / resolve / enter_scope / leave_scope: innermost-scope-first lookup, latest declaration wins, names forgotten at block end, slot numbering).",
